@@ -83,6 +83,7 @@ type tcSink struct {
 	steps atomic.Int64
 	ended atomic.Bool
 	begun atomic.Bool
+	done  atomic.Bool
 	other atomic.Int64 // steps attributed to an environment that is not the current one
 }
 
@@ -98,6 +99,11 @@ func (t *tcSink) TcStep(env *process.GlobalEnvironment) {
 		t.steps.Add(1)
 	} else {
 		t.other.Add(1)
+	}
+}
+func (t *tcSink) TcDone(env *process.GlobalEnvironment) {
+	if t.cur.Load() == env {
+		t.done.Store(true)
 	}
 }
 func (t *tcSink) TcEnd(env *process.GlobalEnvironment) {
@@ -211,6 +217,7 @@ func doTypecheck(j *sup.Job, res *sup.Result, procs []*process.Process, assumed 
 	tcs.steps.Store(0)
 	tcs.ended.Store(false)
 	tcs.begun.Store(false)
+	tcs.done.Store(false)
 	tcs.cur.Store(env)
 	res.TcRan = true
 	err := process.Typecheck(procs, assumed, env)
@@ -219,7 +226,7 @@ func doTypecheck(j *sup.Job, res *sup.Result, procs []*process.Process, assumed 
 	// watch the checker goroutine: it must reach its end without doing further work
 	settle := j.SettleMs
 	if settle <= 0 {
-		settle = 1500
+		settle = 300
 	}
 	deadline := time.Now().Add(time.Duration(settle) * time.Millisecond)
 	for !tcs.ended.Load() && time.Now().Before(deadline) {
@@ -229,7 +236,13 @@ func doTypecheck(j *sup.Job, res *sup.Result, procs []*process.Process, assumed 
 		}
 	}
 	res.TcEnded = tcs.ended.Load()
+	res.TcCompleted = tcs.done.Load()
 	res.TcStepsAfter = tcs.steps.Load() - at
+	if err == nil && !res.TcCompleted {
+		// success was reported although the worker did not run to its end: it is panicking.
+		// Hold the result back so that the death is attributed to this job.
+		time.Sleep(200 * time.Millisecond)
+	}
 	tcs.cur.Store(nil)
 	atomic.StoreInt64(&types.VerifBudget, 0)
 	for k := 1; k <= 4; k++ {
